@@ -514,6 +514,27 @@ class Universe:
             return False
         raise RuntimeError(op)
 
+    def final_add_of_attached_object(self, k):
+        """Last step of a history (the tree is not used afterwards): an object that still has a parent is
+        added to another composite.  Refusing is fine, moving it is fine; being listed by both is not."""
+        pairs = [(g, c) for g in self.generic for c in self.kids[g]]
+        if not pairs:
+            return
+        old, c = pairs[len(pairs) // 2]
+        others = [g for g in self.generic if g != old and not self.is_ancestor(c, g)]
+        if not others:
+            return
+        new = others[0]
+        try:
+            self.objs[new].add(self.objs[c])
+        except Exception:  # noqa: BLE001 - refused
+            self.refused += 1
+            return
+        self.probe("add_of_attached_object_accepted")
+        listed = [g for g in (old, new) if any(x is self.objs[c] for x in list(self.objs[g]))]
+        if len(listed) > 1:
+            self.fail("C01.shape", f"after step {k} (add of an object that still has a parent): {self.objs[c]} is listed by {self.objs[old]} and by {self.objs[new]}; its parent is {self.objs[c].parent}", what="two-parents", op="x_add_attached")
+
     def check_copy(self, k, op, src, cp):
         a = [src] + self.walk_deep(src)
         b = [cp] + self.walk_deep(cp)
@@ -561,6 +582,8 @@ def execute(plan):
                 kinds.append(st["op"])
             u.check_shape(k, st)
             u.check_queries(k, st)
+        if cfg.get("rejected"):
+            u.final_add_of_attached_object(len(plan["steps"]))
         shape = sorted((hd, u.parent[hd], tuple(u.kids[hd])) for hd in u.objs)
         for kk in set(kinds):
             u.probes["op_" + kk] = kinds.count(kk)
